@@ -104,7 +104,7 @@ PLANS = {
     },
     "C02": {
         "level": "proof",
-        "sidecars": ["charges", "driver", "patching"],
+        "sidecars": ["charges", "driver", "patching", "grouping"],
         "extras": [{"name": "c02_charge_table", "module": "tables.x_checks", "func": "c02_charges", "python": "vt"},
                    {"name": "c02_termini", "module": "bounded.c02_termini", "func": "run", "python": "venv"}],
         "explanation": "state naming, residue charge, integrality guard and per-chain termini proved; force-field data "
